@@ -5,7 +5,7 @@ from . import common as C
 
 THEORY = ["theories/Base/ListExtra.v", "theories/Base/Bytes.v", "theories/Base/Crc.v", "theories/Base/Parser.v",
           "theories/Base/Prog.v", "theories/Format/Structs.v", "theories/Content/Pack.v", "theories/Dir/Layout.v",
-          "theories/Dir/DirModel.v", "theories/Dir/Variants.v", "theories/Dir/Values.v", "theories/Dir/Descr.v", "theories/Dir/EntryStore.v", "theories/Dir/EntryStoreVariants.v"]
+          "theories/Dir/DirModel.v", "theories/Dir/Variants.v", "theories/Dir/Values.v", "theories/Dir/Descr.v", "theories/Dir/EntryStore.v", "theories/Dir/EntryStoreVariants.v", "theories/Format/Roundtrips.v", "theories/Content/FilePack.v", "theories/Dir/DirFilePack.v"]
 
 U_BOUNDS = [0, 1, 127, 128, 255, 256, 65535, 65536, 2**24 - 1, 2**24, 2**32 - 1, 2**32, 2**40, 2**48 - 1, 2**56, 2**63, 2**64 - 1]
 S_BOUNDS = [0, 1, -1, 127, 128, -128, -129, 255, 256, 32767, 32768, -32768, -32769, 2**23 - 1, 2**23, -2**23, -2**23 - 1,
